@@ -27,7 +27,8 @@ def arg_asts(a):
 
 
 def oracle(a, tree, rng):
-    """property on one real AST node; returns None or a description"""
+    """property on one real AST node; returns None or a description.  `tree` is None for operators outside the evaluator
+    (the set operations of the abstract domain, FP, strings): then only the structural part is checked."""
     occ = occurring_vars(a)
     if not occ <= set(a.variables):
         return "variables %s misses occurring %s" % (sorted(a.variables), sorted(occ - set(a.variables)))
@@ -36,7 +37,7 @@ def oracle(a, tree, rng):
     d = 1 + max([x.depth for x in arg_asts(a)], default=0)
     if a.depth != d:
         return "depth %d but deepest argument has depth %d" % (a.depth, d - 1)
-    if isinstance(a, claripy.ast.BV):
+    if tree is not None and isinstance(a, claripy.ast.BV):
         vs = E.variables(tree)
         env = E.sample_envs(vs, rng, 1)[0]
         try:
@@ -76,6 +77,15 @@ def derived(a, rng):
                 out.append(("replace_under_annotation", claripy.replace(outer, l, claripy.BVS("r", l.length, explicit_name=True) * 3)))
                 out.append(("replace_under_annotation_const", claripy.replace(outer, l, claripy.BVV(rng.getrandbits(l.length), l.length))))
                 out.append(("replace_annotated_itself", claripy.replace(tagged, l, claripy.BVS("r2", l.length, explicit_name=True))))
+        if isinstance(a, claripy.ast.BV) and rng.random() < 0.5:
+            # the set operations of the abstract domain are ordinary nodes as far as the metadata goes
+            other = rng.choice([claripy.BVS("u", a.length, explicit_name=True), claripy.BVV(rng.getrandbits(a.length), a.length), a + 1])
+            for nm in ("union", "intersection", "widen"):
+                u = getattr(a, nm)(other) if rng.random() < 0.5 else getattr(other, nm)(a)
+                out.append((nm, u))
+                if leaves:
+                    out.append((nm + "_replace", claripy.replace(u, l, claripy.BVS("r", l.length, explicit_name=True) + 1)))
+                    out.append((nm + "_replace_const", claripy.replace(u, l, claripy.BVV(rng.getrandbits(l.length), l.length))))
         if rng.random() < 0.15:
             out.append(("z3_simplify", claripy.simplify(a)))
         if rng.random() < 0.1:
@@ -125,6 +135,10 @@ def run(ctx):
             try:
                 t = E.from_ast(sub)
             except E.Unsupported:
+                bad = oracle(sub, None, rng)
+                if bad:
+                    found += 1
+                    ctx.violation("C05/%s/%s" % (origin, sub.op), "%r: %s" % (sub, bad), {"expr": repr(sub), "origin": origin, "problem": bad})
                 continue
             if sub.args and arg_asts(sub):
                 ctx.distinct(h)
